@@ -136,6 +136,39 @@ impl TraversalQueue {
         Ok(())
     }
 
+    /// Enqueues a location like [`push_covered`](Self::push_covered) and
+    /// reports coverage the queue cannot keep.
+    ///
+    /// An entry holds one location and one covered flag per segment, so two
+    /// pushes forget that the peer has the segment up to some point: a
+    /// covered location below a queued uncovered one (the lower max cut is
+    /// ignored), and an uncovered location above a queued covered one (the
+    /// entry adopts the new flag). The covered location is returned in both
+    /// cases so the caller can keep it.
+    pub(crate) fn push_covered_reporting(
+        &mut self,
+        loc: Location,
+        covered: bool,
+    ) -> Result<Option<Location>, StorageError> {
+        let lost = self
+            .entries
+            .iter()
+            .position(|x| x.same_segment(loc))
+            .and_then(|i| {
+                let entry = self.entries[i];
+                let entry_covered = i >= self.partition;
+                if covered && !entry_covered && loc.max_cut < entry.max_cut {
+                    Some(loc)
+                } else if !covered && entry_covered && loc.max_cut > entry.max_cut {
+                    Some(entry)
+                } else {
+                    None
+                }
+            });
+        self.push_covered(loc, covered)?;
+        Ok(lost)
+    }
+
     /// Enqueues a location without deduplication.
     ///
     /// Unlike [`Self::push`], each call adds a new entry even if the location
